@@ -23,6 +23,6 @@ PY
   python3 - $id <<'PY'
 import json,sys
 f='/verif/seeded/%s/meta.json'%sys.argv[1]
-m=json.load(open(f)); m['round']=4; json.dump(m,open(f,'w'),indent=1)
+m=json.load(open(f)); m['round']=int(__import__('os').environ.get('ROUND','4')); json.dump(m,open(f,'w'),indent=1)
 PY
 done
